@@ -164,12 +164,16 @@ def call (r : Recs) (consts : List (String × ColVal)) (fns : List (String × Fn
 
 /-! ### per-column transforms -/
 
+/-- `f(record[key], **record)` on one record (given as its field access function); a record without the
+key is a `KeyError` -/
+def doCell (f : DoFn) (key : String) (rec : String → Option Cell) : Except Err Cell :=
+  match rec key with
+  | Option.none => .error .key
+  | some v => f.eval v rec
+
 /-- `res[key] = [f(record[key], **record) for record in res]` -/
 def doKey (r : Recs) (f : DoFn) (key : String) : Except Err Recs :=
-  match mapE (fun row =>
-      match get? r.cols row key with
-      | Option.none => Except.error Err.key
-      | some v => f.eval v (get? r.cols row)) r.rows with
+  match mapE (fun row => doCell f key (get? r.cols row)) r.rows with
   | .error e => .error e
   | .ok vs => r.setitem key (.many vs)
 
